@@ -291,10 +291,12 @@ def run_step(unit) -> UnitResult:
             elif lexi:
                 ev.evaluate(problem, pop[:1])  # number_of_objectives() must be known
             before = [ind_snap(i, (problem, other)) for i in pop]
+            members = list(pop)
             step = make_step(term)
             out = list(step.apply(problem, ev, rep, src, pop, n, 1))
-            after = [ind_snap(i, (problem, other)) for i in pop]
-            return before, after, pop, out
+            after = [ind_snap(i, (problem, other)) for i in members]
+            container_ok = len(pop) == len(members) and all(x is y for x, y in zip(pop, members))
+            return before, after, members, out, container_ok, len(pop)
 
         st = ExploreStats()
         for ex in explore(run, max_dev=unit["max_dev"], max_execs=unit["max_execs"], horizon=3000, stats=st):
@@ -304,8 +306,12 @@ def run_step(unit) -> UnitResult:
             if ex.exc is not None:
                 r.count("step_raised(other properties' business)")
                 continue
-            before, after, pop, out = ex.result
+            before, after, pop, out, container_ok, left = ex.result
             r.count("step_applications")
+            if not container_ok:
+                r.add_violation(Violation(PROP, f"step[{term}].apply", "input-population-container-modified", {"term": term, "rep": unit["rep"]},
+                                          {"unit": unit, "choices": list(ex.choices)},
+                                          f"{term} on a list of {n} individuals: the caller's list has {left} members afterwards / other order"))
             if any(o is p for o in out for p in pop):
                 r.nontrivial += 1
             for k, (b, a) in enumerate(zip(before, after)):
